@@ -19,7 +19,7 @@ ASSUME = ["phases are affine forms over two symbols; the exact derivative A + pi
           "grad raising NotImplementedError (parameter shift of multi-qubit rotations) is a refusal: no formal sum is "
           "returned, nothing is claimed; the evidence counts refusals",
           "jacobians over one variable (pure and default mode) and over both variables (default mode) are compared with the stacked exact derivatives; tensor diagrams with symbolic boxes and bubbles are not covered by this check yet"]
-CONST = {"quick": {"PMaxLayers": 2, "replay": 150}, "thorough": {"PMaxLayers": 3, "replay": 6000}}
+CONST = {"quick": {"PMaxLayers": 2, "replay": 150}, "thorough": {"PMaxLayers": 3, "replay": 1000}}
 POINTS = [[1, 3], [2, 5], [0, 4], [7, 2]]
 
 
